@@ -75,6 +75,11 @@ DEAD_CHECKS = {
     ("CSSNamespaceRule", "_setCssText", "atkeyword"): "the keyword is the value of a token already typed NAMESPACE_SYM",
     ("CSSMediaRule", "_setCssText", "name"): "name is None or the str returned by _stringtokenvalue",
 }
+# boolean attributes of self that are fixed at construction and select a mode of the setter: one script per value
+MODE_FLAGS = {"Property": "_mediaQuery"}
+# (class, mode flag, attribute): in that mode the attribute holds '' at all times (set to '' by __init__ and only ever
+# assigned the constant '' there), so `self.<attribute> = ''` does not change the object: translated to Skip
+CONST_EMPTY_IN_MODE = {("Property", "_mediaQuery", "_priority"), ("Property", "_mediaQuery", "_literalpriority")}
 # plain functions / builtins without effect on self
 PURE_FUNCS = {
     "len", "isinstance", "iter", "next", "tuple", "list", "bool", "hasattr", "getattr", "reversed", "enumerate",
@@ -301,11 +306,12 @@ class Env:
 
 
 class Lin:
-    def __init__(self, cls, setter_name, fn):
+    def __init__(self, cls, setter_name, fn, mode=None):
         self.cls = cls
         self.setter_name = setter_name
         self.fn = fn
         self.notes = []
+        self.mode = mode or {}
 
     # -------------------------------------------------- helpers
     def backing(self, cls, attr):
@@ -363,6 +369,8 @@ class Lin:
             return env.kinds.get(node.id)
         if isinstance(node, ast.Call) and self.is_ctor(node):
             return "obj:" + self.is_ctor(node)
+        if isinstance(node, ast.Constant) and node.value is None:
+            return "none"
         return None
 
     def plain_attr(self, kind, attr):
@@ -631,6 +639,11 @@ class Lin:
                     env.notes.append("dead checks dropped in self.%s = ... (%s)" % (t.attr, DEAD_CHECKS[dk]))
                     body = drop_fallible(body)
                 return body
+            if isinstance(value, ast.Constant) and value.value == "" and any(
+                    self.mode.get(f) and (k.__name__, f, attr) in CONST_EMPTY_IN_MODE
+                    for k in env.cls.__mro__ for f in self.mode):
+                env.notes.append("self.%s = '' is a no-op in this mode (reviewed invariant)" % attr)
+                return ("Skip",)
             return self.write(attr)
         sr = self_root(t)
         if sr is not None:
@@ -763,12 +776,40 @@ class Lin:
         raise Refused("line %d: statement %s" % (st.lineno, type(st).__name__))
 
     def fold_test(self, test, env):
-        """isinstance(<local bound to a fresh object>, string_type) is False"""
+        """three-valued evaluation of a test: True / False / None (unknown).
+        Known facts: isinstance(<fresh object>, string_type) is False; a name bound to the constant None is
+        falsy; self.<mode flag> has the value of the mode this script is generated for."""
         if isinstance(test, ast.Call) and isinstance(test.func, ast.Name) and test.func.id == "isinstance" \
                 and len(test.args) == 2 and isinstance(test.args[0], ast.Name) \
                 and isinstance(test.args[1], ast.Name) and test.args[1].id in ("string_type", "str", "basestring"):
-            if (env.kinds.get(test.args[0].id) or "").startswith("obj"):
+            k = env.kinds.get(test.args[0].id) or ""
+            if k.startswith("obj") or k == "none":
                 return False
+            return None
+        if isinstance(test, ast.Name):
+            if env.kinds.get(test.id) == "none":
+                return False
+            if (env.kinds.get(test.id) or "").startswith("obj:") and False:
+                return None
+            return None
+        if isinstance(test, ast.Attribute) and is_self(test.value) and test.attr in self.mode:
+            return self.mode[test.attr]
+        if isinstance(test, ast.UnaryOp) and isinstance(test.op, ast.Not):
+            v = self.fold_test(test.operand, env)
+            return None if v is None else (not v)
+        if isinstance(test, ast.BoolOp):
+            vals = [self.fold_test(v, env) for v in test.values]
+            if isinstance(test.op, ast.And):
+                if any(v is False for v in vals):
+                    return False
+                return True if all(v is True for v in vals) else None
+            if any(v is True for v in vals):
+                return True
+            return False if all(v is False for v in vals) else None
+        if isinstance(test, ast.Compare) and len(test.ops) == 1 and isinstance(test.ops[0], (ast.Is, ast.IsNot)) \
+                and isinstance(test.left, ast.Name) and isinstance(test.comparators[0], ast.Constant) \
+                and test.comparators[0].value is None and env.kinds.get(test.left.id) == "none":
+            return isinstance(test.ops[0], ast.Is)
         return None
 
     def run(self):
@@ -839,21 +880,25 @@ def translate_all():
     res = []
     for group, mods in (("anchored", ANCHOR_MODULES), ("extra", EXTRA_MODULES)):
         for mn, cls, pname, fset in discover(mods):
-            name = "%s.%s" % (cls.__name__, pname)
-            if any(r["name"] == name for r in res):
-                continue
-            ent = {"name": name, "group": group, "module": mn, "setter": getattr(fset, "__name__", "?")}
-            try:
-                if getattr(fset, "__name__", "") == "<lambda>":
-                    raise Refused("setter is a lambda")
-                lin = Lin(cls, pname, fset)
-                ent["script"] = lin.run()
-                ent["notes"] = lin.notes
-            except Refused as e:
-                ent["refused"] = str(e)
-            except RecursionError:
-                ent["refused"] = "recursion while inlining"
-            res.append(ent)
+            flag = None
+            for k in cls.__mro__:
+                flag = flag or MODE_FLAGS.get(k.__name__)
+            for mode, suffix in ([({}, "")] if not flag else [({flag: False}, ""), ({flag: True}, "[%s]" % flag)]):
+                name = "%s.%s%s" % (cls.__name__, pname, suffix)
+                if any(r["name"] == name for r in res):
+                    continue
+                ent = {"name": name, "group": group, "module": mn, "setter": getattr(fset, "__name__", "?")}
+                try:
+                    if getattr(fset, "__name__", "") == "<lambda>":
+                        raise Refused("setter is a lambda")
+                    lin = Lin(cls, pname, fset, mode)
+                    ent["script"] = lin.run()
+                    ent["notes"] = lin.notes
+                except Refused as e:
+                    ent["refused"] = str(e)
+                except RecursionError:
+                    ent["refused"] = "recursion while inlining"
+                res.append(ent)
     return res, pins
 
 
